@@ -498,6 +498,9 @@ func selfTestOPC() error {
 		bad{"second XML declaration behind a byte order mark", func(m map[string]string) {
 			m["word/document.xml"] = `<?xml version="1.0" encoding="UTF-8" standalone="yes"?>` + "\n\ufeff" + m["word/document.xml"]
 		}, (*opc.Package).CheckC01, "xml-wellformed"},
+		bad{"prefix bound to the empty namespace name", func(m map[string]string) {
+			m["word/document.xml"] = strings.Replace(m["word/document.xml"], "<w:body>", `<w:body><a:x xmlns:a=""/>`, 1)
+		}, (*opc.Package).CheckC01, "ns-unbound"},
 		bad{"XML declaration after a comment", func(m map[string]string) {
 			m["word/document.xml"] = "<!-- x -->" + m["word/document.xml"]
 		}, (*opc.Package).CheckC01, "xml-wellformed"})
